@@ -38,6 +38,11 @@ class MultiLib:
 def main(p):
     a = p.args
     out = dict(calls=0, combos=0, failures=[], nontrivial=[], outcomes={}, samples=[])
+    if a.get('debug_logging'):
+        # client logging at DEBUG: every call also passes through the transports' logging interceptors
+        import logging
+        logging.getLogger().setLevel(logging.DEBUG)
+        logging.getLogger().addHandler(logging.NullHandler())
     try:
         lib = MultiLib(a['package'], a.get('svc_package') or {})
     except BaseException as e:
